@@ -374,28 +374,54 @@ macro "gone_ctac" hl:ident hg:ident hb:ident : tactic => `(tactic| (
      case refine_1 => gone_strip $hg
      all_goals gone_side)))
 
+theorem goneInv_caller_app {s : State} (hp : Tid.app = .lis → lisPc s.lpc = true)
+    {l : Lbl} {s' : State} (hl : Life s) (hg : GoneInv s) (hb : Bnd s) (hs : (l, s') ∈ callerSucc s Tid.app) :
+    GoneInv s' := by
+  unfold callerSucc at hs
+  simp only [getC] at hs
+  split at hs
+  all_goals (try unfold iterSucc at hs)
+  all_goals (try unfold bodySucc at hs)
+  all_goals (try unfold closeSucc at hs)
+  all_goals (try unfold nfSucc at hs)
+  all_goals (try unfold crSucc at hs)
+  all_goals (try unfold goneSucc at hs)
+  all_goals (try unfold storeSt at hs)
+  all_goals (try simp only [] at hs)
+  all_goals (repeat' (split at hs))
+  all_goals first
+    | (simp at hs; done)
+    | (exfalso; have := hp rfl; simp [lisPc, *] at this; done)
+    | (simp at hs; crack_hyps
+       all_goals gone_ctac hl hg hb)
+
+theorem goneInv_caller_lis {s : State} (hp : Tid.lis = .lis → lisPc s.lpc = true)
+    {l : Lbl} {s' : State} (hl : Life s) (hg : GoneInv s) (hb : Bnd s) (hs : (l, s') ∈ callerSucc s Tid.lis) :
+    GoneInv s' := by
+  unfold callerSucc at hs
+  simp only [getC] at hs
+  split at hs
+  all_goals (try unfold iterSucc at hs)
+  all_goals (try unfold bodySucc at hs)
+  all_goals (try unfold closeSucc at hs)
+  all_goals (try unfold nfSucc at hs)
+  all_goals (try unfold crSucc at hs)
+  all_goals (try unfold goneSucc at hs)
+  all_goals (try unfold storeSt at hs)
+  all_goals (try simp only [] at hs)
+  all_goals (repeat' (split at hs))
+  all_goals first
+    | (simp at hs; done)
+    | (exfalso; have := hp rfl; simp [lisPc, *] at this; done)
+    | (simp at hs; crack_hyps
+       all_goals gone_ctac hl hg hb)
+
 theorem goneInv_caller {s : State} {t : Tid} (ht : t = .app ∨ t = .lis) (hp : t = .lis → lisPc s.lpc = true)
     {l : Lbl} {s' : State} (hl : Life s) (hg : GoneInv s) (hb : Bnd s) (hs : (l, s') ∈ callerSucc s t) :
     GoneInv s' := by
-  unfold callerSucc at hs
   rcases ht with rfl | rfl
-  all_goals (
-    simp only [getC] at hs
-    split at hs
-    all_goals (try unfold iterSucc at hs)
-    all_goals (try unfold bodySucc at hs)
-    all_goals (try unfold closeSucc at hs)
-    all_goals (try unfold nfSucc at hs)
-    all_goals (try unfold crSucc at hs)
-    all_goals (try unfold goneSucc at hs)
-    all_goals (try unfold storeSt at hs)
-    all_goals (try simp only [] at hs)
-    all_goals (repeat' (split at hs))
-    all_goals first
-      | (simp at hs; done)
-      | (exfalso; have := hp rfl; simp [lisPc, *] at this; done)
-      | (simp at hs; crack_hyps
-         all_goals gone_ctac hl hg hb))
+  · exact goneInv_caller_app hp hl hg hb hs
+  · exact goneInv_caller_lis hp hl hg hb hs
 
 theorem goneInv_step {s s' : State} (hr : Reach s) (hg : GoneInv s) (hs : Step s s') : GoneInv s' := by
   have hl := life_reach hr
